@@ -19,8 +19,21 @@ let shape (s : sdesc) =
     (hx s.s_name) (str (dir_name s.s_dir)) (ob s.s_conn) (List.length s.s_bw) (ob s.s_iceopts) (if s.s_icelite then 1 else 0)
     (ob s.s_ufrag) (ob s.s_pwd) (attrs s.s_attrs) (String.concat " " ms)
 
+let cand_dump (c : cand) =
+  let ob f = function Some x -> f x | None -> "-" in
+  Printf.sprintf "%s|%s|%s|%s|%s|%s|%s|%s|%s|(%s)" (hx c.cd_foundation) (decimal_of_n c.cd_component) (hx c.cd_transport) (decimal_of_n c.cd_priority)
+    (hx c.cd_addr) (decimal_of_n c.cd_port) (hx c.cd_typ) (ob hx c.cd_raddr) (ob decimal_of_n c.cd_rport)
+    (String.concat "+" (List.map (fun (k, v) -> hx k ^ "=" ^ hx v) c.cd_unknown))
+
 let () =
   for_each_case Sys.argv.(1) (fun f ->
+    if f.(2) = "cand" then begin
+      match parse_cand (bytes_of_hex f.(3)) with
+      | None -> "C=ERR"
+      | Some c ->
+        let printed = print_cand c in
+        "C=" ^ cand_dump c ^ "\tT=" ^ hex_of_bytes printed ^ "\tC2=" ^ (match parse_cand printed with Some c2 -> cand_dump c2 | None -> "ERR")
+    end else
     match parse_text (fun _ _ -> true) (bytes_of_hex f.(3)) with
     | None -> "ERR"
     | Some s ->
